@@ -26,6 +26,11 @@ def check(ctx):
         collector.rule_drain_keeps_live(ctx, c, "R6")
         spanrules.rule_fanout(ctx, c, "R7")
     spanrules.rule_drop_order(ctx, facts, "R3")
+    from .. import spsc
+    # the root's CommitCollect is never lost: forced, parked on Full, and put back when a replay meets a full ring
+    spanrules.rule_signals_forced(ctx, facts, "R9", kinds=("CommitCollect",))
+    spsc.rule_force_send_keeps(ctx, facts, "R9")
+    spsc.rule_replay_keeps(ctx, facts, "R9")
     from .. import provrules
     provrules.rule_config(ctx, facts, "R8")
     # R5
